@@ -54,7 +54,7 @@ func refCertID(w *world.World, ns, name string) string {
 		return ""
 	}
 	switch sec.SecretKind {
-	case "tls", "tlsca":
+	case "tls", "tlsca", "tlschain":
 		return world.PoolCert(sec.Cert).Fingerprint()
 	}
 	return ""
